@@ -73,8 +73,18 @@ fn rfc_decode(buf: &[u8]) -> Option<Packet> {
     }
 }
 
+/// the datagram being decoded and a progress counter, for the watchdog (a decoder that loops for ever must not hang this program)
+static CURRENT: std::sync::Mutex<Vec<u8>> = std::sync::Mutex::new(Vec::new());
+static PROGRESS: std::sync::atomic::AtomicU64 = std::sync::atomic::AtomicU64::new(0);
+
 fn check(buf: &[u8], cases: &mut u64, exact: bool) {
     *cases += 1;
+    {
+        let mut c = CURRENT.lock().unwrap();
+        c.clear();
+        c.extend_from_slice(buf);
+    }
+    PROGRESS.store(*cases, std::sync::atomic::Ordering::Relaxed);
     let got = match std::panic::catch_unwind(|| Packet::deserialize(buf).ok()) {
         Ok(g) => g,
         Err(_) => {
@@ -102,6 +112,21 @@ fn check(buf: &[u8], cases: &mut u64, exact: bool) {
 
 fn main() {
     std::panic::set_hook(Box::new(|_| {}));
+    // watchdog: no progress for 20 s means the decoder does not return (totality includes termination)
+    std::thread::spawn(|| {
+        let mut last = 0u64;
+        let mut stalled = 0;
+        loop {
+            std::thread::sleep(std::time::Duration::from_secs(2));
+            let now = PROGRESS.load(std::sync::atomic::Ordering::Relaxed);
+            if now == last { stalled += 1; } else { stalled = 0; last = now; }
+            if stalled >= 10 {
+                let near = CURRENT.lock().map(|c| c.clone()).unwrap_or_default();
+                println!("COUNTEREXAMPLE: Packet::deserialize({:02x?}) does not return (no progress for 20 s; datagram number {} of the enumeration)", near, now);
+                std::process::exit(1);
+            }
+        }
+    });
     let mut cases = 0u64;
     // C10 asks for totality, the accept/reject boundary and stability; C11 additionally for the exact packet
     let exact = std::env::args().nth(1).map(|a| a != "C10").unwrap_or(true);
